@@ -258,7 +258,8 @@ def run_task(task, acc):
     has_t = "t" in spec["needs"]
 
     def gen():
-        for x in alpha.all_seqs(alphabet, 0, n):
+        long_x = alpha.debruijn(tuple(alphabet), 4) * 2
+        for x in [list(xx) for xx in alpha.all_seqs(alphabet, 0, n)] + [long_x]:
             x = list(x)
             for axis in data_axes:
                 for c in DATA_CARRIERS[1:]:
